@@ -460,6 +460,12 @@ func checkC03(ix *index, add addFn) {
 			}
 		}
 	}
+	dropRun := false
+	for _, f := range sc.Faults {
+		if f.Kind == "dropB2C" || f.Kind == "dropC2B" || f.Kind == "silentFrom" {
+			dropRun = true
+		}
+	}
 	for _, i := range ix.tx {
 		r := &ix.tr[i]
 		switch r.P.Type {
@@ -503,6 +509,12 @@ func checkC03(ix *index, add addFn) {
 			}
 			if r.P.Type == TSubscribe && resubPossible {
 				continue // cannot be told apart from a re-subscription by content
+			}
+			if dropRun {
+				// with acknowledgements timing out on a link that stays up, a request
+				// given up on and an identical later request are on the wire side by
+				// side: content does not tell a retransmission from a first transmission
+				continue
 			}
 			for _, e := range order {
 				o := sc.Ops[e.op]
